@@ -226,7 +226,8 @@ func (m *BaseUndoLogManager) FlushUndoLog(tranCtx *types.TransactionContext, con
 
 	parseContext := make(map[string]string, 0)
 	parseContext[serializerKey] = undo.UndoConfig.LogSerialization
-	parseContext[compressorTypeKey] = undo.UndoConfig.CompressConfig.Type
+	// the rollback info is stored uncompressed: the context must say so, Undo decompresses by it
+	parseContext[compressorTypeKey] = string(compressor.CompressorNone)
 	undoLogContent := m.encodeUndoLogCtx(parseContext)
 	rollbackInfo, err := m.serializeBranchUndoLog(&branchUndoLog, parseContext[serializerKey])
 	if err != nil {
